@@ -614,7 +614,7 @@ Qed.
 Fixpoint same_content (y : yv) (j : jv) {struct y} : bool :=
   match y, j with
   | YBool b, JBool b' => Bool.eqb b b'
-  | YInt z, JNum raw fi => String.eqb raw (render_z z) && finfo_eqb fi int_fi
+  | YInt z, JNum raw fi => String.eqb raw (render_z z) && finfo_eqb fi (int_fi z)
   | YFloat raw fi, JNum raw' fi' => String.eqb raw raw' && finfo_eqb fi fi'
   | YStr s pj, JStr s' pj' =>                            (* strings that are themselves JSON texts: not covered here *)
       String.eqb s s' && match pj, pj' with None, None => true | _, _ => false end
